@@ -37,6 +37,8 @@ def run_prop(pid, tier, root, seed=0, quiet=False):
     try:
         prog = Program(root)
         stats = prog.stats()
+        from sa import astq
+        astq.PROG = prog
         mod = load_prop(pid)
         mod.check(prog, run)
         if tier == "thorough" and hasattr(mod, "thorough"):
